@@ -52,7 +52,7 @@ def gen_cases(tier, seed):
         if cls == "no-source":
             srcs = []
         elif cls == "missing-source":
-            srcs.insert(pos, "does-not-exist")
+            srcs.insert(pos, r.choice(["does-not-exist", "does-not-exist", "missing]", "no}such{"]))
             if r.random() < 0.35:
                 # named literally while --glob is on: still a missing source, not a pattern (a pattern with wildcards that matches
                 # nothing is not claimed, see ASSUMPTIONS)
@@ -140,8 +140,11 @@ def gen_cases(tier, seed):
             srcs = [r.choice(["v*", "v?", "./v*"])]
             dstate = r.choice(["absent", "file"])
         elif cls == "target-directory-nondir":
-            # several sources with --target-directory naming something that is not a directory
-            if len(srcs) < 2:
+            # --target-directory naming something that is not a directory (a file, or nothing), with several sources or just one: an
+            # option value that cannot be honoured
+            if r.random() < 0.5:
+                srcs = ["v0"]
+            elif len(srcs) < 2:
                 spec.append({"p": "extra", "k": "f", "size": 4, "seed": 2, "segs": None})
                 srcs = ["v0", "extra"]
             dstate = r.choice(["absent", "file"])
